@@ -207,6 +207,8 @@ def ops():
     lazy("fixture-LookupDB-lookup-k1-custom", lambda: (fixtures()["lookupdb"].lookup, (list(SEQS2),), {"max_edits": 1, "custom_distance": _lev_half}))
     lazy("new-Cdr3Levenshtein-default-cdist", lambda: (__import__("pyrepseq").metric.tcr_metric.Cdr3Levenshtein().calc_cdist_matrix, (_df(), _df()), {}))
     lazy("new-WeightedLevenshtein-312-pdist", lambda: (WeightedLevenshtein(3, 1, 2).calc_pdist_vector, (list(SEQS),), {}))
+    lazy("multimerge-index-how-right-named-indexes", lambda: (prs.multimerge, ([pd.DataFrame({"v": [3, 4]}, index=pd.Index([1, 2], name="clone")), pd.DataFrame({"w": [5, 6]}, index=pd.Index([2, 3], name="id"))], "index"), {"how": "right"}))
+    lazy("powerlaw_mle_alpha-exact-bounds-from-1", lambda: (prs.powerlaw_mle_alpha, (np.array([1, 1, 2, 3, 1, 7, 2]),), {"bounds": [1.0, 4.0]}))
     lazy("multimerge-index-suffixes", lambda: (prs.multimerge, ([pd.DataFrame({"v": [3, 4]}, index=[1, 2]), pd.DataFrame({"v": [5, 6]}, index=[2, 3])], "index", ["a", "b"]), {"how": "inner"}))
     lazy("powerlaw_mle_alpha-exact-bounds", lambda: (prs.powerlaw_mle_alpha, ([1, 1, 2, 3, 7, 1],), {"method": "exact", "bounds": [1.5, 2.0]}))
     lazy("hierarchical_clustering-empty-kws", lambda: (prs.hierarchical_clustering, (list(SEQS),), {"linkage_kws": {}, "cluster_kws": {"t": 2}}))
